@@ -352,7 +352,17 @@ fn delegation_recs(cut: Vec<Vec<u8>>, shape: u8, glue_mask: u8) -> Vec<RecSpec> 
     if shape & 16 != 0 {
         out.push(ns(NameSpec::Abs(vec![b"ns".to_vec(), b"outside".to_vec()])));
     }
-    if shape & 31 == 0 {
+    // the delegation point itself is one of its name servers (its addresses are glue at the cut)
+    if shape & 32 != 0 {
+        out.push(ns(NameSpec::Rel(cut.clone(), 0)));
+        if glue_mask & 32 != 0 {
+            out.push(addr(NameSpec::Rel(cut.clone(), 0), false, 5));
+        }
+        if glue_mask & 64 != 0 {
+            out.push(addr(NameSpec::Rel(cut.clone(), 0), true, 5));
+        }
+    }
+    if shape & 63 == 0 {
         out.push(ns(rel(&[b"ns1"])));
     }
     out
@@ -408,7 +418,8 @@ fn host_recs(host: Vec<u8>, user: Vec<u8>, kinds: u8) -> Vec<RecSpec> {
 pub fn zone_spec(apex: MName, valid_only: bool, big: bool, soa_min_lt_2_31: bool) -> impl Strategy<Value = ZoneSpec> {
     let apex2 = apex.clone();
     (
-        prop_oneof![6 => Just(mr::C_IN), 2 => Just(mr::C_CH), 1 => Just(mr::C_HS), 1 => Just(300u16)],
+        // 255 and 254 are the QCLASS values ANY and NONE: nothing stops a catalog entry from having such a class
+        prop_oneof![12 => Just(mr::C_IN), 4 => Just(mr::C_CH), 2 => Just(mr::C_HS), 2 => Just(300u16), 1 => Just(255u16), 1 => Just(254u16)],
         prop_oneof![8 => Just(0u8), 1 => Just(1u8), 1 => Just(2u8)],
         // apex records
         prop::option::weighted(0.9, (prop_oneof![Just(60u32), Just(300), Just(3600), Just(7200)], prop_oneof![Just(30u32), Just(300), Just(3600), Just(86400), if soa_min_lt_2_31 { Just(0x7fff_ffffu32).boxed() } else { any::<u32>().boxed() }], 0u8..2)),
@@ -419,8 +430,11 @@ pub fn zone_spec(apex: MName, valid_only: bool, big: bool, soa_min_lt_2_31: bool
         prop::collection::vec((prop_oneof![Just(b"mx".to_vec()), Just(b"h".to_vec()), Just(b"ns".to_vec())], zlabel(), any::<u8>()), 0..3),
         // a delegation with many long name-server names, glue and parent-side addresses (truncation tests)
         if big { prop::option::weighted(0.6, (1usize..14, 1usize..=60, 0usize..8, any::<u8>())).boxed() } else { Just(None).boxed() },
+        // an RRset of more than 16 records whose targets have addresses in the zone (MX / SRV at
+        // "wide", or NS at the apex): additional-section processing for every one of them
+        prop::option::weighted(0.08, (17usize..24, 0u8..3, any::<u8>())),
     )
-        .prop_map(move |(class, kind, soa, apex_ns, mut recs, chains, delegations, hosts, bigdel)| {
+        .prop_map(move |(class, kind, soa, apex_ns, mut recs, chains, delegations, hosts, bigdel, wide)| {
             let mut all = Vec::new();
             if let Some((ttl, minimum, serial)) = soa {
                 all.push(RecSpec {
@@ -483,6 +497,32 @@ pub fn zone_spec(apex: MName, valid_only: bool, big: bool, soa_min_lt_2_31: bool
                     }
                     if addr_mask & 4 != 0 {
                         all.push(RecSpec { owner: target, ttl: 300, rd: RdSpec::A(100 + i as u8) });
+                    }
+                }
+                // the delegation point is its own (last) name server; its addresses are required glue
+                if addr_mask & 8 != 0 {
+                    let target = NameSpec::Rel(cut.clone(), 0);
+                    all.push(RecSpec { owner: target.clone(), ttl: 300, rd: RdSpec::Single(mr::T_NS, target.clone()) });
+                    all.push(RecSpec { owner: target.clone(), ttl: 300, rd: RdSpec::A(200) });
+                    if addr_mask & 16 != 0 {
+                        all.push(RecSpec { owner: target, ttl: 300, rd: RdSpec::Aaaa(200) });
+                    }
+                }
+            }
+            if let Some((n, shape, addr_mask)) = wide {
+                for i in 0..n {
+                    let target = NameSpec::Rel(vec![format!("t{i}").into_bytes(), b"wide".to_vec()], 0);
+                    let (owner, rd) = match (shape, class) {
+                        (1, c) if c == mr::C_IN => (NameSpec::Rel(vec![b"wide".to_vec()], 0), RdSpec::Srv(80 + i as u16, target.clone())),
+                        (2, _) => (NameSpec::Rel(vec![], 0), RdSpec::Single(mr::T_NS, target.clone())),
+                        _ => (NameSpec::Rel(vec![b"wide".to_vec()], 0), RdSpec::Mx(i as u16, target.clone())),
+                    };
+                    all.push(RecSpec { owner, ttl: 300, rd });
+                    if addr_mask & 1 != 0 || i % 3 != 1 {
+                        all.push(RecSpec { owner: target.clone(), ttl: 300, rd: RdSpec::A(i as u8) });
+                    }
+                    if addr_mask & 2 != 0 && i % 2 == 0 {
+                        all.push(RecSpec { owner: target, ttl: 300, rd: RdSpec::Aaaa(i as u8) });
                     }
                 }
             }
